@@ -19,15 +19,17 @@ UNPROVED = ["normwise backward error of the f64/Complex instantiation (covered b
 MANIFEST = dict(
     text=("Theorems over an arbitrary field (all sizes n >= 1, all entries) about the Gallina model of src/matrix/solve.rs, which keeps the flat "
           "row-major buffer, the loop bounds, the pivot rule (initial index 0, strict <) and every panic of the code: "
-          "solve_basic_sound (solve_basic M b = Ok x -> |x| = n and M x = b; row operations preserve the solution set, back substitution solves "
-          "the triangular system, a zero pivot is a DivZero panic), solutions_unique (left inverse => at most one solution), "
-          "solve_basic_complete (magnitude laws + left inverse => solve_basic returns Ok), corollaries at Qc, and a 3x3 rational example "
-          "with a zero leading entry and two row exchanges evaluated by vm_compute.  The model is run against the implementation on every check "
-          "(Rat vs Qc exact, f64/Complex<f64> vs primitive floats; both solvers; zero/tiny pivots, permutation-like, triangular, singular and "
-          "mis-shaped systems) and an independent Fraction/float residual oracle searches for a failing input; the measured distribution of "
-          "row exchanges per system is written to the evidence."),
+          "solve_basic_sound (solve_basic M b = Ok x -> |x| = n and M x = b: row operations preserve the solution set, back substitution solves "
+          "the triangular system, a zero pivot is a DivZero panic -- including the run in which a zero sub-column makes the pivot search fall back "
+          "to row 0), solutions_unique (left inverse => at most one solution), solve_basic_complete (magnitude laws PivLaws + left inverse => Ok), "
+          "solve_basic_panic_kind / _singular (the only possible panic is the zero divisor, and it certifies a singular matrix), corollaries "
+          "'solved, uniquely' at Qc, R and C (the model's own complex operators), and a 3x3 rational example with a zero leading entry and two "
+          "row exchanges evaluated by vm_compute.  The model is run against the implementation on every check (Rat vs Qc exact, f64/Complex<f64> "
+          "vs primitive floats; both solvers; zero/tiny pivots, permutation-like, triangular, singular and mis-shaped systems) and an independent "
+          "Fraction/float residual oracle searches for a failing input; the measured distribution of row exchanges per system is in the evidence."),
     note=("Float backward stability (1e-11 normwise) is searched, not proved.  The LU half of the property (solve_lu_sound, solvers_agree) "
-          "rests on package c02's theorems; here solve_lu is tied and searched."),
+          "rests on package c02's theorems (Proofs/Solve.v: solvers_agree_from_lu_sound composes them); here solve_lu is tied and searched. "
+          "Completeness needs PivLaws (abs x = 0 <-> x = 0, x <> 0 -> 0 < |x|, not |x| < 0): MagLaws of DESIGN Appendix E is too weak."),
     technique="Coq proof over an abstract field + model/implementation differential execution (vm_compute vs Rust executor) + exact residual oracle",
     design="7 (C01)")
 
@@ -133,7 +135,7 @@ def mk(elt, n, A, b, family, nontrivial):
 
 def generate(rng, tier):
     cases = []
-    N = 80 if tier == "quick" else 1200
+    N = 80 if tier == "quick" else 600
     fams_r = ["dense", "zero-lead", "perm", "upper", "lower", "neg-dominant"]
     g = rng.fork("rat")
     for fam in fams_r:
